@@ -17,6 +17,8 @@ CONSTANTS
   Reorder = TRUE
   RecvAnywhere = TRUE
   PropsOn <- P_C03
+  MaxHostile = 0
+  HostileSet = "none"
   ExportAll = TRUE
   Export = TRUE
 INVARIANT NoFlag
